@@ -436,3 +436,102 @@ pub fn replay(_idx: usize, rec: &Value) -> Value {
     }
     json!({"ok": viols.is_empty(), "viol": viols, "observed": observed, "classes": classes(rec), "text": if viols.is_empty() { Value::Null } else { json!(r.text) }})
 }
+
+
+// ---------------------------------------------------------------------------
+// C12: alias transparency as a two-run (product) check on the real code.
+// The left run is the behaviour's input as written (aliases used at some
+// occurrences), the right run the same input with every declared alias
+// replaced by its canonical name according to the specification's final
+// intern tables.  Balance and register must be identical and canonical-only.
+// ---------------------------------------------------------------------------
+fn canon_of(tbl: &Value, name: &str) -> String {
+    match tbl.get(name) {
+        Some(e) if e["canon"] == false => e["to"].as_str().unwrap().to_string(),
+        _ => name.to_string(),
+    }
+}
+
+fn subst_q(q: &Value, cm: &Value) -> Value {
+    let mut q = q.clone();
+    let c = q["c"].as_str().unwrap().to_string();
+    if !c.is_empty() && c != "~" {
+        q["c"] = json!(canon_of(cm, &c));
+    }
+    q
+}
+
+pub fn substitute(input: &Value, at: &Value, cm: &Value) -> Value {
+    let mut out = Vec::new();
+    for e in input.as_array().unwrap() {
+        let mut e = e.clone();
+        if e["k"] == "txn" {
+            let posts: Vec<Value> = e["posts"].as_array().unwrap().iter().map(|p| {
+                let mut p = p.clone();
+                p["acct"] = json!(canon_of(at, p["acct"].as_str().unwrap()));
+                for f in ["q", "cost", "lot", "asrt"] {
+                    p[f] = subst_q(&p[f], cm);
+                }
+                p
+            }).collect();
+            e["posts"] = json!(posts);
+        }
+        out.push(e);
+    }
+    Value::Array(out)
+}
+
+pub fn replay_alias(idx: usize, rec: &Value, workdir: &str) -> Value {
+    let base = replay(idx, rec);
+    let ex = &rec["expect"];
+    if base["ok"] != true || ex["verdict"] != "ok" {
+        return base;
+    }
+    let mut viols = Vec::new();
+    let right = substitute(&rec["input"], &ex["acct"], &ex["cmdt"]);
+    let (rl, rr) = (render(&rec["input"]), render(&right));
+    let aliases_a: Vec<String> = ex["acct"].as_object().map(|o| o.iter().filter(|(_, v)| v["canon"] == false).map(|(k, _)| k.clone()).collect()).unwrap_or_default();
+    let aliases_c: Vec<String> = ex["cmdt"].as_object().map(|o| o.iter().filter(|(_, v)| v["canon"] == false).map(|(k, _)| k.clone()).collect()).unwrap_or_default();
+    match (run_process(&rl.text), run_process(&rr.text)) {
+        (Outcome::Ok(l), Outcome::Ok(r)) => {
+            if l.bal != r.bal || l.reg != r.reg {
+                viols.push(viol("alias_not_transparent", format!("with aliases: {:?} / {:?}; with canonical names: {:?} / {:?}", l.bal, l.reg, r.bal, r.reg)));
+            }
+            for (a, m) in &l.bal {
+                if aliases_a.contains(a) { viols.push(viol("alias_shown", format!("balance report lists alias account {}", a))); }
+                for c in m.keys() { if aliases_c.contains(c) { viols.push(viol("alias_shown", format!("balance report lists alias commodity {}", c))); } }
+            }
+            for (_, ps) in &l.reg {
+                for (a, m) in ps {
+                    if aliases_a.contains(a) { viols.push(viol("alias_shown", format!("register lists alias account {}", a))); }
+                    for c in m.keys() { if aliases_c.contains(c) { viols.push(viol("alias_shown", format!("register lists alias commodity {}", c))); } }
+                }
+            }
+        }
+        (Outcome::Ok(_), _) => viols.push(viol("alias_not_transparent", "the ledger written with canonical names only is rejected, the one using aliases is accepted")),
+        _ => {}
+    }
+    // the CLI reports on a sample
+    if viols.is_empty() && idx % 8 == 0 {
+        let dir = std::path::PathBuf::from(workdir).join(format!("al{}", std::process::id()));
+        std::fs::create_dir_all(&dir).unwrap();
+        let (pl, pr) = (dir.join("l.ledger"), dir.join("r.ledger"));
+        std::fs::write(&pl, &rl.text).unwrap();
+        std::fs::write(&pr, &rr.text).unwrap();
+        for cmd in ["balance", "register"] {
+            let ol = guarded(|| crate::report::cli(&[cmd.to_string(), pl.to_string_lossy().to_string()]));
+            let or = guarded(|| crate::report::cli(&[cmd.to_string(), pr.to_string_lossy().to_string()]));
+            if ol != or {
+                viols.push(viol("cli_alias_not_transparent", format!("`okane {}` differs: {:?} vs {:?}", cmd, ol, or)));
+            }
+        }
+        let _ = std::fs::remove_dir_all(&dir);
+    }
+    let mut v = base;
+    if !viols.is_empty() {
+        v["ok"] = json!(false);
+        v["viol"] = json!(viols);
+        v["text"] = json!(format!("{}\n--- canonical ---\n{}", rl.text, rr.text));
+    }
+    v
+}
